@@ -1,0 +1,5 @@
+//go:build !verif
+
+package bondmachine
+
+func verifPoint(kind string, vm *VM, proc int) {}
